@@ -133,11 +133,15 @@ _WORKER_FN = None
 def _raised_in_library(e):
     """Was the exception raised by code of the tree under test (its innermost frame is an aiocoap frame)?"""
     tb = e.__traceback__
-    last = None
+    last = None          # the deepest frame that belongs either to the harness or to the library (deeper ones are the standard library's)
     while tb is not None:
-        last = tb
+        fn = tb.tb_frame.f_code.co_filename
+        if "/aiocoap/" in fn:
+            last = "library"
+        elif fn.startswith(VERIF + os.sep):
+            last = "harness"
         tb = tb.tb_next
-    return last is not None and "/aiocoap/" in last.tb_frame.f_code.co_filename
+    return last == "library"
 
 
 def _call(arg):
